@@ -514,7 +514,10 @@ func runSyncCase(seed int64, thorough bool) (*syncInput, Res) {
 				args = append(args, "--depth", itoa(in.Depth))
 			}
 		case "push":
-			args = []string{"push", "origin", "refs/heads/main:refs/heads/main", "--no-progress"}
+			// three spellings of the same update: the full destination, an abbreviated one (resolved
+			// against the remote's refs by interpretDestination), the destination left out
+			spec := []string{"refs/heads/main:refs/heads/main", "refs/heads/main:main", "refs/heads/main"}[r.Intn(3)]
+			args = []string{"push", "origin", spec, "--no-progress"}
 		case "pull":
 			args = []string{"pull", "main", "--no-gui"}
 			if in.Depth > 0 {
